@@ -884,7 +884,3 @@ Proof.
   exact (C06_full ex_orc2 ex_tree2 ex_bytes2 ex2_typed ex2_encs ex2_indents (proj1 ex2_write) ex2_oracle ex2_guesses ex2_size).
 Qed.
 
-Print Assumptions C05_full.
-Print Assumptions C05_full_aligned.
-Print Assumptions C06_full.
-Print Assumptions ex2_C06_full.
